@@ -57,7 +57,7 @@ def replay(ctx, case):
 
 N_QUICK, N_THOROUGH = 400, 2000
 RULE = ("case = (generated program as in C01 with stacks of 0..4 own/inherited postconditions and a body outcome from "
-        "{fresh object, None, 0, '', False, [], list, the argument itself} or a raise of {Exception, KeyError, custom, "
+        "{fresh object, None, 0, '', False, [], list, the argument itself, NotImplemented, Ellipsis} or a raise of {Exception, KeyError, custom, "
         "KeyboardInterrupt, SystemExit, GeneratorExit, custom BaseException, StopIteration(sync)}; all truth "
         "assignments). Oracle: postcondition events (ids, order, result/argument/OLD identities) and the caller's "
         "value/exception identity equal the reference. non-trivial = falsy-but-valid result, BaseException body, or "
@@ -71,7 +71,7 @@ def nontrivial(case, truth, res, mask, n):
     fs = list(p.get("funcs", [])) + [f for c in p.get("classes", []) for f in c.get("members", [])]
     for f in fs:
         b = f.get("body") or {}
-        if b.get("ret") in ("None", "0", "''", "False", "emptylist"):
+        if b.get("ret") in ("None", "0", "''", "False", "emptylist", "NotImplemented", "Ellipsis"):
             return True
         if b.get("raise") in ("KeyboardInterrupt", "SystemExit", "GeneratorExit", "ProgBaseError"):
             return True
